@@ -53,3 +53,49 @@ fn n08_record_tail_all_values() {
     }
     eprintln!("EVALUATIONS: {}", n);
 }
+
+// The text direction of the record tail: every record built from a finite token grammar. Accepted
+// text must be stable under parse -> format -> parse; nothing may panic.
+#[cfg(not(kani))]
+#[test]
+fn n08_record_tail_text_grammar() {
+    let sides = ["w", "b", "W", "x", ""];
+    let rights = ["-", "K", "Q", "k", "q", "KQ", "Kk", "Kq", "Qk", "Qq", "kq", "KQk", "KQq", "Kkq", "Qkq", "KQkq",
+                  "QK", "qk", "KK", "kK", "KQkqK", "--", "A", ""];
+    let mut marks: Vec<String> = Vec::new();
+    for f in b'a'..=b'h' { for r in b'1'..=b'8' { marks.push(format!("{}{}", f as char, r as char)); } }
+    for m in ["-", "a", "a9", "i3", "e33", ""] { marks.push(m.to_string()); }
+    let nums = ["0", "1", "9", "100", "65535", "65536", "+5", "-1", "007"];
+    let board = "8/8/8/8/8/8/8/8";
+    let mut n = 0u64;
+    let mut accepted = 0u64;
+    let mut check = |txt: &str| {
+        n += 1;
+        if let Ok(v) = RawBoard::from_str(txt) {
+            accepted += 1;
+            let again = v.to_string();
+            let back = RawBoard::from_str(&again);
+            if back.as_ref().ok() != Some(&v) {
+                eprintln!("REPLAY-INPUT: text {:?} parses to side={:?} castling={:?} ep_source={:?} counters={} {}, which formats to {:?}, which parses to {:?}",
+                    txt, v.side, v.castling, v.ep_source, v.move_counter, v.move_number, again, back);
+                panic!("FEN record parse-format-parse");
+            }
+        }
+    };
+    for s in sides { for c in rights { for m in &marks { for a in nums { for b in nums {
+        check(&format!("{} {} {} {} {} {}", board, s, c, m, a, b));
+    } } } } }
+    // records cut after each field, doubled and trailing separators
+    for s in sides { for c in rights { for m in &marks {
+        check(&format!("{} {} {} {}", board, s, c, m));
+        check(&format!("{} {} {} {} 5", board, s, c, m));
+        check(&format!("{} {} {} {} ", board, s, c, m));
+        check(&format!("{}  {} {} {} 0 1", board, s, c, m));
+        check(&format!("{} {} {} {} 0 1 ", board, s, c, m));
+        check(&format!("{} {} {} {} 0 1 x", board, s, c, m));
+    } } }
+    for s in sides { for c in rights { check(&format!("{} {} {}", board, s, c)); } check(&format!("{} {}", board, s)); }
+    check(board); check("");
+    assert!(accepted > 1000);
+    eprintln!("EVALUATIONS: {}", n);
+}
